@@ -65,6 +65,7 @@ type Contract struct {
 	NoMapRange  []string          // callee-name substrings that must not be called inside a loop ranging over a map
 	WriteFrame  bool              // every heap store must target memory allocated by this call or context-owned memory
 	FreshResult bool              // (trusted specs) the result is a fresh allocation
+	CallSites   map[string]int    // callsites <callee> <n>: the function has exactly n call sites of that callee
 	UsesMapNext bool              // some clause mentions the ghost log mapnext
 	NoNilChecks bool              // sweep: nil-dereference obligations are not generated
 }
@@ -357,6 +358,21 @@ func (ct *ContractTable) LoadFile(path, pkg string, inRepo bool) {
 				// nomaprange <callee substrings>: these calls must not happen inside a loop that ranges
 				// over a map (Go randomises the iteration order; the effect would depend on it)
 				cur.NoMapRange = append(cur.NoMapRange, strings.Fields(rest)...)
+			case "callsites":
+				// callsites <callee> <n>: exactly n call sites of the callee in this function (static)
+				fs2 := strings.Fields(rest)
+				n2 := -1
+				if len(fs2) == 2 {
+					n2, _ = strconv.Atoi(fs2[1])
+				}
+				if n2 < 0 {
+					ct.errf(path, ln, "callsites <callee> <n>")
+					continue
+				}
+				if cur.CallSites == nil {
+					cur.CallSites = map[string]int{}
+				}
+				cur.CallSites[fs2[0]] = n2
 			case "writeframe":
 				cur.WriteFrame = true
 			case "fresh-result":
